@@ -143,6 +143,11 @@ pub struct SCfg {
     pub capitalize: Option<bool>,
     pub suffixes: [Option<String>; 7],
     pub default_export: Option<bool>,
+    /// `generate.export.operationResultType` / `variablesType` (None = not configured)
+    pub export_result: Option<bool>,
+    pub export_vars: Option<bool>,
+    /// `OperationTypePrinterOptions::schema_source` (the CLI sets it after `from_config`; so does this harness)
+    pub schema_source: String,
 }
 
 const SUFFIX_KEYS: [&str; 7] =
@@ -173,6 +178,7 @@ impl SCfg {
             "scalars": self.scalars.iter().map(|(n, c)| json!([n, scalar_to_json(c)])).collect::<Vec<_>>(),
             "optional": self.optional, "runtime": self.runtime, "mode": self.mode, "capitalize": self.capitalize,
             "suffixes": self.suffixes.iter().map(|s| json!(s)).collect::<Vec<_>>(), "default_export": self.default_export,
+            "export_result": self.export_result, "export_vars": self.export_vars, "schema_source": self.schema_source,
         })
     }
     fn from_json(v: &Value) -> SCfg {
@@ -190,6 +196,9 @@ impl SCfg {
             capitalize: v["capitalize"].as_bool(),
             suffixes,
             default_export: v["default_export"].as_bool(),
+            export_result: v["export_result"].as_bool(),
+            export_vars: v["export_vars"].as_bool(),
+            schema_source: v["schema_source"].as_str().unwrap_or("").to_string(),
         }
     }
     fn yaml(&self) -> String {
@@ -206,9 +215,17 @@ impl SCfg {
                 }
             }
         }
-        if let Some(b) = self.default_export {
+        if self.default_export.is_some() || self.export_result.is_some() || self.export_vars.is_some() {
             extra.push("      export:".to_string());
-            extra.push(format!("        defaultExportForOperation: {b}"));
+            if let Some(b) = self.default_export {
+                extra.push(format!("        defaultExportForOperation: {b}"));
+            }
+            if let Some(b) = self.export_result {
+                extra.push(format!("        operationResultType: {b}"));
+            }
+            if let Some(b) = self.export_vars {
+                extra.push(format!("        variablesType: {b}"));
+            }
         }
         let pc = ProjectCfg { mode, scalars: self.scalars.clone(), allow_undefined_as_optional_input: self.optional, emit_schema_runtime: self.runtime, extra_generate_lines: extra };
         pc.yaml("schema/*.graphql", "ops/*.graphql", &[("schemaOutput", "out/schema.d.ts")])
@@ -235,6 +252,25 @@ impl SCfg {
         }
         v.push(Sexp::bool(self.mode == "standalone-ts-4.0"));
         Sexp::call("opts", v)
+    }
+    /// the options of the FULL call-sequence model: what `OperationTypePrinterOptions::from_config` /
+    /// `OperationBasePrinterOptions::from_config` compute from the configuration, computed here from the case
+    fn fopts_sexp(&self) -> Sexp {
+        let de = self.default_export.unwrap_or(true);
+        Sexp::call(
+            "fopts",
+            vec![
+                self.opts_sexp(),
+                Sexp::bool(de),
+                Sexp::bool(!de),
+                Sexp::bool(self.export_vars.unwrap_or(false)),
+                Sexp::bool(self.export_result.unwrap_or(false)),
+                Sexp::str("Schema"),
+                Sexp::str(self.schema_source.as_str()),
+                Sexp::str("@graphql-typed-document-node/core"),
+                Sexp::bool(self.optional.unwrap_or(true)),
+            ],
+        )
     }
 }
 
@@ -266,7 +302,18 @@ impl SitesCase {
 }
 
 fn plain_cfg() -> SCfg {
-    SCfg { scalars: vec![], optional: None, runtime: false, mode: MODES[0].to_string(), capitalize: None, suffixes: Default::default(), default_export: None }
+    SCfg {
+        scalars: vec![],
+        optional: None,
+        runtime: false,
+        mode: MODES[0].to_string(),
+        capitalize: None,
+        suffixes: Default::default(),
+        default_export: None,
+        export_result: None,
+        export_vars: None,
+        schema_source: String::new(),
+    }
 }
 
 pub fn corpus() -> Vec<SitesCase> {
@@ -299,11 +346,27 @@ pub fn corpus() -> Vec<SitesCase> {
             capitalize: Some(false),
             suffixes: [Some("Doc".into()), None, Some("".into()), Some("Frag".into()), Some("R".into()), Some("V".into()), Some("T".into())],
             default_export: Some(false),
+            export_result: Some(true),
+            export_vars: Some(true),
+            schema_source: "../out/schema".into(),
         },
         origin: "corpus:renamed-runtime-two-files-import".into(),
     });
     // a scalar without a TypeScript type: the schema printer stops with ScalarTypeNotProvided
     out.push(SitesCase { schema: vec!["scalar Date\ntype Query { d: Date }\n".into()], main: None, imported: None, cfg: plain_cfg(), origin: "corpus:scalar-without-type".into() });
+    // standalone mode: runtime JSON with every class of the json-writer escape table (quote, backslash, slash, \b \f \n \r \t,
+    // other control characters, DEL and non-ASCII are NOT escaped), a block string, variables with defaults and directives;
+    // result and variables types exported; one operation only (default export unless configured otherwise)
+    out.push(SitesCase {
+        schema: vec!["type Query { greeting(text: String, n: [Int!]): String me: Query }\n".into()],
+        main: Some(
+            "query q($v: String = \"x/y\", $n: [Int!]! = [1, 2], $b: Boolean! = false) {\n  greeting(text: \"a\\\"b\\\\c/d\\n\\t\\r\\b\\f\\u0001\\u001f\\u007f é😀\")\n  b: greeting(text: \"\"\"\n    blk \"q\" \\ line\n      two\n  \"\"\", n: $n) @skip(if: $b)\n  me { ...F me { greeting(text: $v) } }\n}\nfragment F on Query { g: greeting __typename }\n"
+                .into(),
+        ),
+        imported: None,
+        cfg: SCfg { mode: "standalone-ts-4.0".into(), export_result: Some(true), export_vars: Some(true), schema_source: "./schema".into(), ..plain_cfg() },
+        origin: "corpus:standalone-json-escapes".into(),
+    });
     // the anonymous shorthand query
     out.push(SitesCase { schema: vec!["type Query { a: Int }\n".into()], main: Some("  { a }\n".into()), imported: None, cfg: plain_cfg(), origin: "corpus:shorthand".into() });
     out
@@ -330,6 +393,9 @@ pub fn generated(rng: &mut Rng, i: usize) -> SitesCase {
             1 => Some(true),
             _ => Some(false),
         },
+        export_result: None,
+        export_vars: None,
+        schema_source: String::new(),
     };
     for k in 0..7 {
         if rng.chance(1, 3) {
@@ -383,6 +449,15 @@ pub fn generated(rng: &mut Rng, i: usize) -> SitesCase {
         origin.push_str(":imported-fragments");
         Some(render_doc(&mut imported_doc, style(), rng.fork()).0)
     };
+    // options that only the FULL call-sequence comparison sees (drawn last: the cases above stay what they were)
+    let tri = |rng: &mut Rng| match rng.below(3) {
+        0 => None,
+        1 => Some(true),
+        _ => Some(false),
+    };
+    cfg.export_result = tri(rng);
+    cfg.export_vars = tri(rng);
+    cfg.schema_source = ["", "./schema", "../generated/schema.d", "@/gql/schema"][rng.below(4)].to_string();
     SitesCase { schema: schema_texts, main: Some(main), imported, cfg, origin }
 }
 
@@ -419,6 +494,8 @@ struct SchemaSide {
 struct OpsSide {
     doc: gm::Doc,
     sel_pos: Vec<P>,
+    /// `document.position.file`
+    doc_file: usize,
     ty_rec: Result<Vec<ROp>, String>,
     ty_direct: Result<RealOut, String>,
     js_rec: Result<Vec<ROp>, String>,
@@ -461,7 +538,7 @@ fn run_schema_printers(resolved: &TypeSystemDocument, config: &Config) -> (Resul
     (schema_rec, schema_direct, resolvers_rec, resolvers_direct)
 }
 
-fn run_operation_printers(schema: &Schema<Cow<str>, Pos>, config: &Config, main: &str, imported: Option<&str>, first_file: usize) -> Result<OpsSide, String> {
+fn run_operation_printers(schema: &Schema<Cow<str>, Pos>, config: &Config, schema_source: &str, main: &str, imported: Option<&str>, first_file: usize) -> Result<OpsSide, String> {
     set_current_file_of_pos(first_file);
     let d = parse_operation_document(main).map_err(|e| format!("operation file does not parse: {e:?}"))?;
     let (mut doc, _ext): (OperationDocument, _) = resolve_operation_extensions(d).map_err(|e| format!("operation file: {e:?}"))?;
@@ -482,19 +559,25 @@ fn run_operation_printers(schema: &Schema<Cow<str>, Pos>, config: &Config, main:
         })
         .collect();
     let model_doc = gm::from_real_doc(&doc);
+    // as cli/src/generate.rs: `from_config`, then `schema_source` is filled in
+    let type_options = || {
+        let mut o = OperationTypePrinterOptions::from_config(config);
+        o.schema_source = schema_source.to_string();
+        o
+    };
     let ty_rec = catch(AssertUnwindSafe(|| {
         let mut rec = Rec::default();
-        print_types_for_operation_document(OperationTypePrinterOptions::from_config(config), schema, &doc, &mut rec);
+        print_types_for_operation_document(type_options(), schema, &doc, &mut rec);
         rec.ops
     }));
-    let ty_direct = direct(|w| print_types_for_operation_document(OperationTypePrinterOptions::from_config(config), schema, &doc, w));
+    let ty_direct = direct(|w| print_types_for_operation_document(type_options(), schema, &doc, w));
     let js_rec = catch(AssertUnwindSafe(|| {
         let mut rec = Rec::default();
         print_js_for_operation_document(OperationJSPrinterOptions::from_config(config), &doc, &mut rec);
         rec.ops
     }));
     let js_direct = direct(|w| print_js_for_operation_document(OperationJSPrinterOptions::from_config(config), &doc, w));
-    Ok(OpsSide { doc: model_doc, sel_pos, ty_rec, ty_direct, js_rec, js_direct })
+    Ok(OpsSide { doc: model_doc, sel_pos, doc_file: doc.position.file, ty_rec, ty_direct, js_rec, js_direct })
 }
 
 impl<'a> Sites<'a> {
@@ -512,9 +595,10 @@ impl<'a> Sites<'a> {
         let n_schema = case.schema.len();
         let main = case.main.clone();
         let imported = case.imported.clone();
+        let schema_source = case.cfg.schema_source.clone();
         let r = with_schema(&case.schema, |resolved, schema| {
             let (schema_rec, schema_direct, resolvers_rec, resolvers_direct) = run_schema_printers(resolved, &config);
-            let ops_side = main.as_ref().map(|m| run_operation_printers(schema, &config, m, imported.as_deref(), n_schema));
+            let ops_side = main.as_ref().map(|m| run_operation_printers(schema, &config, &schema_source, m, imported.as_deref(), n_schema));
             (gm::from_real_tsdoc(resolved), schema_rec, schema_direct, resolvers_rec, resolvers_direct, ops_side)
         });
         let side = match r {
@@ -544,6 +628,11 @@ impl<'a> Sites<'a> {
         if let Some(o) = &side.ops_side {
             reqs.push(Sexp::call("sites.optype", vec![case.cfg.opts_sexp(), o.doc.to_sexp(), Sexp::list(o.sel_pos.iter().map(|p| p.to_sexp()).collect())]));
             reqs.push(Sexp::call("sites.opjs", vec![case.cfg.opts_sexp(), o.doc.to_sexp()]));
+            reqs.push(Sexp::call(
+                "sites.optype.full",
+                vec![case.cfg.fopts_sexp(), side.tsdoc.to_sexp(), o.doc.to_sexp(), Sexp::list(o.sel_pos.iter().map(|p| p.to_sexp()).collect()), Sexp::int(o.doc_file as i128)],
+            ));
+            reqs.push(Sexp::call("sites.opjs.full", vec![case.cfg.fopts_sexp(), o.doc.to_sexp(), Sexp::int(o.doc_file as i128)]));
         }
         let ans = self.drv.batch(&reqs);
 
@@ -609,6 +698,24 @@ impl<'a> Sites<'a> {
                     }
                 }
             }
+            // ---- sites:optype:calls / sites:opjs:calls (the FULL sequence, call by call; a panic of the printer = (err …) of the model)
+            for (which, rec, a) in [("optype", &o.ty_rec, &ans[4]), ("opjs", &o.js_rec, &ans[5])] {
+                self.rep.k_cases += 1;
+                match rec {
+                    Err(p) => {
+                        self.rep.count(&format!("sites:{which}:calls:printer-panics"));
+                        if a.head() != Some("err") {
+                            self.rep.fail("K", &format!("sites:{which}:calls:panic-differs"), &format!("the printer panics ({p}); the model answers {}", trunc(&a.to_string())), cj.clone());
+                        }
+                    }
+                    Ok(ops) => {
+                        let real: Vec<Sexp> = ops.iter().map(rop_to_sexp).collect();
+                        self.compare(&format!("{which}:calls"), &real, a, &cj);
+                        self.rep.count_n(&format!("sites:{which}:calls:compared-call-by-call"), ops.len() as u64);
+                        self.count_op_features(which, ops, case);
+                    }
+                }
+            }
             for d in &o.doc.defs {
                 match d {
                     ExecDef::Op(op) if op.name.is_none() => self.rep.count("sites:feature:anonymous-operation"),
@@ -640,6 +747,39 @@ impl<'a> Sites<'a> {
         }
         if self.for_ops_stream.len() < self.ops_stream_budget && ops.len() <= 1500 && direct.is_ok() {
             self.for_ops_stream.push(ops.iter().map(to_writer_op).collect());
+        }
+    }
+
+    fn count_op_features(&mut self, which: &str, ops: &[ROp], case: &SitesCase) {
+        let has = |t: &str| ops.iter().any(|o| matches!(o, ROp::W(x) if x == t));
+        for (t, f) in [
+            ("export ", "export-keyword"),
+            ("declare ", "declare-keyword"),
+            (" as default };\n\n", "default-export"),
+            (" as unknown as TypedDocumentNode<", "runtime-value(JSON)"),
+            ("{}", "empty-object-type"),
+            (" | ", "union"),
+            (")[]", "array"),
+            ("?", "optional-property"),
+            ("readonly ", "readonly-property"),
+            ("never", "never"),
+            ("undefined", "undefined"),
+        ] {
+            if has(t) {
+                self.rep.count(&format!("sites:{which}:calls:feature:{f}"));
+            }
+        }
+        if ops.iter().any(|o| matches!(o, ROp::W(x) if x.starts_with("{\"kind\":\"Document\"") && (x.contains("\\\"") || x.contains("\\n") || x.contains("\\/") || x.contains("\\u00")))) {
+            self.rep.count(&format!("sites:{which}:calls:feature:JSON-with-escapes"));
+        }
+        if case.cfg.export_result == Some(true) {
+            self.rep.count(&format!("sites:{which}:calls:feature:export.operationResultType"));
+        }
+        if case.cfg.export_vars == Some(true) {
+            self.rep.count(&format!("sites:{which}:calls:feature:export.variablesType"));
+        }
+        if !case.cfg.schema_source.is_empty() {
+            self.rep.count(&format!("sites:{which}:calls:feature:schema-source-set"));
         }
     }
 
